@@ -224,8 +224,14 @@ def processor_level(sp, case, scen_ref, col, flags):
         any_feasible = len(case.archs) > 0
     else:
         any_feasible = any(per and all(len(v) > 0 for v in per.values()) for _, _, per in scen_ref.values())
+    enc_ctx = {}
     try:
         gp = GraphProcessor(b.dsg, encoder_type=SelChoiceEncoderType.COMPLETE)
+        try:
+            enc_ctx = {'conn_enc': ','.join(sorted({type(d_[0].encoder).__name__
+                                                    for d_ in gp._conn_choice_data_map.values()}))}
+        except Exception:  # noqa
+            enc_ctx = {}
         res = gp.get_all_discrete_x()
     except Exception as e:  # noqa
         info = D.exc_info(e)
@@ -269,10 +275,10 @@ def processor_level(sp, case, scen_ref, col, flags):
                         feasible_ref = False
         if feasible_ref and key not in got:
             col.violation('scenario_lost', sp, {'assign': assign, 'sets': {k: len(v) for k, v in per.items()}}, flags,
-                          where={'level': 'processor'})
+                          where=dict(enc_ctx, level='processor'))
         elif not feasible_ref and key in got:
             col.violation('scenario_without_valid_set_is_decoded', sp, {'assign': assign}, flags,
-                          where={'level': 'processor'})
+                          where=dict(enc_ctx, level='processor'))
         elif feasible_ref:
             for kid, want in per.items():
                 have = got[key].get(kid, set())
@@ -280,7 +286,7 @@ def processor_level(sp, case, scen_ref, col, flags):
                     col.violation('offered_sets_differ', sp,
                                   {'assign': assign, 'choice': kid, 'missing': sorted(want - have)[:3],
                                    'extra': sorted(have - want)[:3], 'n_ref': len(want), 'n_decoded': len(have)},
-                                  flags, where={'dir': 'missing' if want - have else 'extra', 'level': 'processor'})
+                                  flags, where=dict(enc_ctx, dir='missing' if want - have else 'extra', level='processor'))
 
 
 def sibling_with_moved_exclusion(sp, rnd):
@@ -311,7 +317,10 @@ def worker(task, col):
             common.guard(col, check_case, c['spec'], col, 'corpus')
     for i in range(task['lo'], task['hi']):
         name, sp = case_spec(task['seed'], i)
+        n0 = len(col.violations)
         common.guard(col, check_case, sp, col, name)
+        if len(col.violations) > n0:
+            common.attribute_to_pattern_encoders(col, n0, lambda c, sp=sp: check_case(sp, c, 'rerun'))
         # a sibling design space in the same process (same on-disk caches): identical connectors, the exclusion edge
         # moved to another target of the same source
         sib = sibling_with_moved_exclusion(sp, gen.rng_for('c11sib', task['seed'], i))
